@@ -203,6 +203,83 @@ func runC19(c *Ctx) {
 		})
 	}
 
+	c.rule("C19-R15", "ERR/def-use: a change that was seen is a change that is reported: a function of pkg/hotreload that both answers with the changes it found and records what it has seen (it returns a list and updates the watcher's stored hashes / stamps) consumes the change - so every call of it uses its answer. A caller that only asks `did anything change again?` and drops the list has swallowed the final content of a save: the next poll sees nothing new and no reload ever happens for it")
+	{
+		hrPkg := "pkg/hotreload"
+		n := 0
+		consuming := map[*ssa.Function]bool{}
+		for _, fn := range c.srcFuncs(hrPkg) {
+			if fn.Signature.Results().Len() != 1 {
+				continue
+			}
+			if _, isSlice := fn.Signature.Results().At(0).Type().Underlying().(*types.Slice); !isSlice || fn.Signature.Recv() == nil {
+				continue
+			}
+			records := false
+			for _, body := range withAnon(fn) { // the walk callback records as well
+				eachInstr(body, func(_ *ssa.BasicBlock, _ int, ins ssa.Instruction) {
+					if mu, ok := ins.(*ssa.MapUpdate); ok {
+						if derivesFrom(mu.Map, func(v ssa.Value) bool { _, _, isField := fieldOf(v); return isField }) {
+							records = true
+						}
+					}
+				})
+			}
+			eachInstr(fn, func(_ *ssa.BasicBlock, _ int, ins ssa.Instruction) {
+				switch x := ins.(type) {
+				case *ssa.MapUpdate:
+					if nt, _, ok := fieldOf(stripLoad(x.Map)); ok && nt != nil {
+						records = true
+					} else if u, ok := x.Map.(*ssa.UnOp); ok {
+						if _, _, ok := fieldOf(u.X); ok {
+							records = true
+						}
+					}
+				case *ssa.Store:
+					if _, _, ok := fieldOf(x.Addr); ok && !isFreshAlloc(x.Addr) {
+						records = true
+					}
+				}
+			})
+			if records {
+				consuming[fn] = true
+			}
+		}
+		for _, fn := range c.srcFuncs(hrPkg) {
+			k := 0
+			eachInstr(fn, func(_ *ssa.BasicBlock, _ int, ins ssa.Instruction) {
+				cl, ok := ins.(*ssa.Call)
+				if !ok || !consuming[staticFn(cl)] {
+					return
+				}
+				k++
+				n++
+				// used: the list goes somewhere - asking only for its length (or whether it is nil) drops it
+				used := false
+				if rs := cl.Referrers(); rs != nil {
+					for _, r := range *rs {
+						switch y := r.(type) {
+						case *ssa.Call:
+							if b, isB := y.Call.Value.(*ssa.Builtin); isB && (b.Name() == "len" || b.Name() == "cap") {
+								continue
+							}
+							used = true
+						case *ssa.BinOp:
+							continue
+						case *ssa.DebugRef:
+							continue
+						default:
+							used = true
+						}
+					}
+				}
+				c.ob("C19-R15", fnKey(fn)+"#detected-changes-are-used-"+itoa(k), cl.Pos(), used, "the answer of "+staticFn(cl).Name()+" is dropped, but the call has recorded the new state of the files it reported: the change it saw is never notified, the next poll finds nothing new, and the last content of a save is never reloaded")
+			})
+		}
+		c.Sites["C19-R15#consuming-calls"] = n
+		c.ob("C19-R15", hrPkg+"#consuming-calls-examined", token.NoPos, n > 0, "no call of a change-detecting function found in pkg/hotreload")
+	}
+
 	c.rule("C19-R14", "ORD: a failed reload leaves the running version as it was: in the functions of cmd/glyph/server.go that build a version (they can return an error), nothing the running version still uses is shut down or closed (a call of Shutdown / Close / Stop on a value loaded from the manager's own fields) at a point from which an error return is still reachable - the reload can still fail late (a missing static directory, a duplicate pattern), the old handler keeps serving, and its WebSocket hub is gone: connected clients are cut and new ones hang")
 	{
 		n := 0
